@@ -229,6 +229,68 @@ Theorem C18_invert_match_error :
 Proof. exact validate_patterns_err. Qed.
 Print Assumptions C18_invert_match_error.
 
+(* Pattern SETS over typedef chains. lys_compile_type_patterns() gives a type the patterns of its base type
+   followed by its own, each new one inverted iff ITS statement has modifier invert-match; so for a chain
+   typedef t1 {type string {level 1}} ... leaf {type t(n-1) {level n}} (any level may be empty, a parsed
+   pattern is (inverted, code)) the value is accepted iff for EVERY pattern of EVERY level the single-pattern
+   answer XOR that pattern's own flag holds - independent of how the patterns are spread over the levels. *)
+Theorem C18_invert_match_chain :
+  forall (code : Type) (code_match : code -> bytes -> res bool) (levels : list (list (bool * code))) s,
+    (forall q, In q (concat levels) -> is_ok (code_match (snd q) s) = true) ->
+    validate_patterns code code_match (chain_patterns code [] levels) s
+    = Ok (forallb (fun q => match code_match (snd q) s with
+                            | Ok m => xorb m (fst q)
+                            | Err _ => false
+                            end) (concat levels)).
+Proof. exact validate_chain. Qed.
+Print Assumptions C18_invert_match_chain.
+
+(* typedef word {pattern [a-z]+} ; leaf {type word {pattern ab.* inverted}} with the XSD reference as the
+   matcher: xyz accepted, abc rejected, XYZ rejected *)
+Example C18_invert_match_chain_ex :
+  let cm := fun p s => match xsd_match p s with Some b => Ok b | None => Err 1 end in
+  let lv := [ [(false, [91;97;45;122;93;43])]; [(true, [97;98;46;42])] ] in
+  validate_patterns bytes cm (chain_patterns bytes [] lv) [120;121;122] = Ok true /\
+  validate_patterns bytes cm (chain_patterns bytes [] lv) [97;98;99] = Ok false /\
+  validate_patterns bytes cm (chain_patterns bytes [] lv) [88;89;90] = Ok false.
+Proof. vm_compute. repeat split. Qed.
+
+(* String types over a typedef chain whose levels also restate LENGTH. A level is (its length statement if any,
+   its pattern statements); chain_type transcribes the string case of lys_compile_type_(): length and patterns
+   are inherited independently. Then (1) the patterns checked at the data node are the patterns of ALL levels in
+   order, each with its own flag, whichever levels have a length statement, a pattern statement, both or nothing,
+   and the length checked is the statement of the last level that has one; (2) a value of n characters is
+   accepted iff n is in that length and every pattern of every level answers match XOR its own flag. *)
+Theorem C18_typeset_chain :
+  forall (code : Type) (levels : list (option (length_restr) * list (bool * code))),
+    st_patterns code (chain_type code (string_builtin code) levels)
+    = map (fun q => {| pat_code := snd q; pat_inverted := fst q |}) (concat (map snd levels)) /\
+    st_length code (chain_type code (string_builtin code) levels) = last_length code None levels.
+Proof. intros code levels. exact (chain_type_flat code levels (string_builtin code)). Qed.
+Print Assumptions C18_typeset_chain.
+
+Theorem C18_typeset_validate :
+  forall (code : Type) (code_match : code -> bytes -> res bool) levels n s,
+    (forall q, In q (concat (map snd levels)) -> is_ok (code_match (snd q) s) = true) ->
+    validate_string code code_match (chain_type code (string_builtin code) levels) n s
+    = Ok ((match last_length code None levels with Some r => in_length r n | None => true end) &&
+          forallb (fun q => match code_match (snd q) s with
+                            | Ok m => xorb m (fst q)
+                            | Err _ => false
+                            end) (concat (map snd levels))).
+Proof. exact validate_string_chain. Qed.
+Print Assumptions C18_typeset_validate.
+
+(* typedef word {pattern [a-z]+} ; leaf {type word {length 1..4}} with the XSD reference as the matcher: abc is
+   accepted, ABC and abcde are rejected *)
+Example C18_typeset_ex :
+  let cm := fun p s => match xsd_match p s with Some b => Ok b | None => Err 1 end in
+  let t := chain_type bytes (string_builtin bytes) [ (None, [(false, [91;97;45;122;93;43])]); (Some [(1, 4)], []) ] in
+  validate_string bytes cm t 3 [97;98;99] = Ok true /\
+  validate_string bytes cm t 3 [65;66;67] = Ok false /\
+  validate_string bytes cm t 5 [97;98;99;100;101] = Ok false.
+Proof. vm_compute. repeat split. Qed.
+
 (* with the XSD reference as the matcher: patterns a (plain) and b|a (inverted) reject a, patterns
    a (plain) and b (inverted) accept a *)
 Example C18_invert_match_ex :
